@@ -20,7 +20,7 @@ import (
 )
 
 //verif:include zz_verif_model.go
-//verif:harness H08_step property=C08 native=no quick=t=3,v2=1,bad=0;t=3,v2=0,bad=1;t=4,v2=0,bad=0;t=3,v2=1,bad=3 thorough=t=4,v2=1,bad=2;t=5,v2=1,bad=0;t=5,v2=0,bad=1;t=6,v2=1,bad=0
+//verif:harness H08_step property=C08 native=no quick=t=3,v2=1,bad=0;t=3,v2=0,bad=1;t=4,v2=0,bad=0;t=3,v2=1,bad=3;t=3,v2=0,bad=4 thorough=t=4,v2=1,bad=2;t=5,v2=1,bad=0;t=5,v2=0,bad=1;t=6,v2=1,bad=0
 
 func verifPlainText(n int) []byte {
 	b := nd.Bytes(n)
@@ -152,6 +152,8 @@ func H08_step() {
 		pending = append(pending, []byte("-'zz.ex,never-there"))
 	case 2: // a malformed line (unknown operation)
 		pending = append(pending, []byte("?'k.ex,x"))
+	case 4: // a malformed line of a single character (an operation without a record)
+		pending = append(pending, []byte{"-+x"[nd.Choice(3)]})
 	}
 	for len(pending) > 0 {
 		k := nd.Choice(len(pending))
